@@ -2,6 +2,32 @@
 """Writes seeded/<ID>-<X>/meta.json from the sub-agent's agent_meta.json, my notes below and seeded/matrix.tsv."""
 import json,os,glob
 NOTES={
+ "C01-G":"fifth round; first missed (no text started with a byte order mark); caught since the file prefixes (BOM, NUL, U+2028, U+0085, shebang) in front of every sequence of <=2 token classes",
+ "C04-F":"fifth round; first missed (every generated comment had a body); caught since comment bodies come from a pool that contains the empty one",
+ "C04-G":"fifth round; first missed (programs were small in every direction); caught since the wide programs (a construct repeated 12-4000 times side by side)",
+ "C05-F":"fifth round; first missed (constructor names A-D); caught since `Ok`, `Nil`, `Error`, `True` are in the constructor pool",
+ "C07-F":"fifth round; same root cause as C05-F, produced independently by the C07 agent; caught at once by then",
+ "C06-F":"fifth round; first missed (one layout); caught since the layout noise around label colons and access dots",
+ "C07-G":"fifth round; first missed (an occurrence that never resolves is invisible to rename/rename-back); caught by C06 and C07 since the typed chain workspaces carry an occurrence table",
+ "C08-G":"fifth round; first missed; caught since module names `sub` (next to `q/sub`) and `g` (next to `src/g`)",
+ "C09-F":"fifth round; first missed (lambdas all-or-nothing annotated, one parameter); caught since function types with 1-3 parameters annotated per parameter",
+ "C09-G":"fifth round; C04 caught it at once (operator triples); C09 itself since `fn(p) { \"n=\" <> p |> render }(3)`",
+ "C13-F":"fifth round; first missed (the client model called a column past the line end invalid); caught since such columns are sent (LSP 3.17: they mean the line end)",
+ "C14-F":"fifth round; same change as C13-F produced independently; caught by C14 (columns past the line end must convert to the line end) and C13",
+ "C14-G":"fifth round; the defect is in the notification handler, which C14 (in-process) does not reach; C13's and C15's real-server tiers report it",
+ "C15-F":"fifth round; first missed (no dependency directory in the project); caught since an undeclared build/packages/dep with its own gleam.toml and its files among the URIs",
+ "C16-F":"fifth round; first missed (every didChange changed the text); caught since no-op notifications follow one edit in five. Patch re-ported to the HEAD with the yield-point hook",
+ "C16-G":"fifth round; caught at once. Patch re-ported to the HEAD with the yield-point hook",
+ "C17-F":"fifth round; first missed; caught since trees below packages/, mono/packages/, build/",
+ "C17-G":"fifth round; first missed; caught since the dependency `libdeep` next to `lib` and a free-standing app.gleam next to app/",
+ "C18-G":"fifth round; first missed; caught since the module name p/q/r",
+ "C19-F":"fifth round; C19's tiers open fresh documents; caught by C14 (line table after edits) and C13",
+ "C19-G":"fifth round; first missed (function-typed locals were optional members); caught since C19's stage on C09's typed programs; C09 catches it as well",
+ "C20-F":"fifth round; first missed (no check looked at the ranges of a rename over LSP); caught since C20's rename sessions against the real server",
+ "C20-G":"fifth round; first missed; caught since workspaces reached by deleting a module through the hooked document store",
+ "C12-G":"fifth round; first missed; caught since a third of the writer's changes list files twice",
+ "C10-F":"fifth round; NOT caught: the inference blow-up needs a type that shares a sub-type at 25+ levels, and hovering inside such a program legitimately prints a type of 2^depth leaves on the unchanged tree as well, so a sweep cannot tell the two apart within any budget (DESIGN 9.5)",
+
  "C02-E":"fourth round; first missed (no enumeration context inside a variant's field list); caught since the context `type T { C( <tokens> ) }`",
  "C03-E":"fourth round; first missed (single-token edits cannot delete an argument together with its closing parenthesis); caught since the labelled-call victim and the deletion of every run of 2-3 adjacent tokens",
  "C05-E":"fourth round; first missed (a local spelled like an import accessor never held a record whose field was read); caught since the modules zrec/zuse",
